@@ -195,7 +195,7 @@ func vStripANSI(s string) string {
 
 // VerifC02Color: colour adds ANSI escape sequences and nothing else.
 func VerifC02Color() {
-	strs := [...]string{"", "a", "ab", "a\"b", "<>&", "\x01", "\U0001F600x", "é"}
+	strs := [...]string{"", "a", "ab", "a\"b", "<>&", "\x01", "\U0001F600x", "é", "x\"", "\"", "\\", "a\\\""}
 	var r, a []JsonNode
 	switch vChoice(3) {
 	case 0: // single string replaced by single string: character-level colouring
